@@ -216,6 +216,9 @@ func (sqlite *SQLiteDB) SaveProofs(proofs cashu.Proofs) error {
 
 func (sqlite *SQLiteDB) GetProofsUsed(Ys []string) ([]storage.DBProof, error) {
 	proofs := []storage.DBProof{}
+	if len(Ys) == 0 {
+		return proofs, nil
+	}
 	query := `SELECT * FROM proofs WHERE y in (?` + strings.Repeat(",?", len(Ys)-1) + `)`
 
 	args := make([]any, len(Ys))
@@ -288,6 +291,9 @@ func (sqlite *SQLiteDB) AddPendingProofs(proofs cashu.Proofs, quoteId string) er
 
 func (sqlite *SQLiteDB) GetPendingProofs(Ys []string) ([]storage.DBProof, error) {
 	proofs := []storage.DBProof{}
+	if len(Ys) == 0 {
+		return proofs, nil
+	}
 	query := `SELECT * FROM pending_proofs WHERE y in (?` + strings.Repeat(",?", len(Ys)-1) + `)`
 
 	args := make([]any, len(Ys))
@@ -672,6 +678,9 @@ func (sqlite *SQLiteDB) GetBlindSignature(B_ string) (cashu.BlindedSignature, er
 
 func (sqlite *SQLiteDB) GetBlindSignatures(B_s []string) (cashu.BlindedSignatures, error) {
 	signatures := cashu.BlindedSignatures{}
+	if len(B_s) == 0 {
+		return signatures, nil
+	}
 	query := `SELECT amount, c_, keyset_id, e, s FROM blind_signatures WHERE b_ in (?` + strings.Repeat(",?", len(B_s)-1) + `)`
 
 	args := make([]any, len(B_s))
